@@ -126,7 +126,7 @@ META = dict(
     ],
     bounds=dict(
         quick="12 mappings x 6 modes; 2x2 objects; reduced alphabet (one op per argument shape); depth 3 (transient, loaded), 2 (pending, lazy modes), 4 (one-to-one); dups shards",
-        thorough="12 mappings x 6 modes; o2m 2x3 objects (2x2 in lazy modes); full alphabet; depth 4 (in-memory, loaded), 3 (lazy modes), 6 (one-to-one); dups shards",
+        thorough="12 mappings x 6 modes; o2m 2x3 objects and full alphabet in the in-memory and loaded modes (depth 4), 2x2 objects and reduced alphabet in the lazy modes (depth 3); one-to-one depth 6; dups shards",
     ),
 )
 
@@ -264,6 +264,8 @@ def coll_ops(shape, side, owner, owners, elems, tier, basic=False):
 
 
 def alphabet(kind, coll, tier, mode):
+    if mode in LAZY:
+        tier = "quick"  # lazy modes pay SQL per step: reduced alphabet in both tiers, the thorough tier goes one op deeper
     ps, cs = universe(kind, tier, mode)
     sp, sc = shapes(kind, coll)
     ops = []
